@@ -34,6 +34,7 @@ type c14HResp struct {
 	msg        string
 	partial    bool // kind 1: the response carries a partial-success message
 	cancel     bool
+	chunked    bool // the response does not announce its length
 }
 
 type c14NetErr struct{ temporary bool }
@@ -160,7 +161,12 @@ func (c14RT) RoundTrip(req *http.Request) (*http.Response, error) {
 			rb = []byte(" x ")
 		}
 	}
-	return &http.Response{StatusCode: r.sc, Status: "s", Header: h, Body: io.NopCloser(bytes.NewReader(rb)), Request: req}, nil
+	// the length is announced, or unknown (a chunked / streamed response)
+	cl := int64(len(rb))
+	if r.chunked {
+		cl = -1
+	}
+	return &http.Response{StatusCode: r.sc, Status: "s", Header: h, Body: io.NopCloser(bytes.NewReader(rb)), ContentLength: cl, Request: req}, nil
 }
 
 func HarnessC14HTTPUpload() { c14HTTPUpload(false) }
@@ -195,6 +201,7 @@ func c14HTTPUpload(gz bool) {
 			vndAssume(vndAnd(sc >= 200, sc <= 299))
 			r.sc = int(sc)
 			r.partial = vndChoice(2) == 1
+			r.chunked = vndChoice(2) == 1
 			if r.partial {
 				r.rejected = vndI64()
 				r.msg = []string{"", "m"}[vndChoice(2)]
